@@ -102,7 +102,7 @@ def run(tier, seed):
 
     # oracles on the Rust answers
     bad = []
-    for (kind, a, x, rr), ln, lab, ro in zip(info, lines, labels, r):
+    for (kind, a, x, rr), ln, lab, ro, mo in zip(info, lines, labels, r, m):
         R.case(ln, nontrivial=(ro != 'REJECT'), kind=lab + (':ok' if ro != 'REJECT' else ':rej'))
         if kind != 'I' and a[0] in ('MVar', 'ESub', 'SSub') and ro != 'REJECT':
             # deferred on metavariables and pending substitutions: the result is exactly the wrapped node
@@ -115,7 +115,12 @@ def run(tier, seed):
             continue
         ref, cap = (O.subst_e if kind == 'SE' else O.subst_s)(a, x, rr)
         if ro == 'REJECT':
-            continue   # the checker may reject conservatively
+            # the checker may reject conservatively (the proved model says exactly when: a binder on the way whose variable the plug mentions);
+            # refusing a capture-free substitution that the model performs is a deviation with a concrete input (e.g. under a binder that
+            # re-binds the substituted variable the result is the pattern itself)
+            if not cap and mo != 'REJECT':
+                bad.append(('refuses-capture-free-substitution', kind, a, x, rr, ('Sym', 0), ref))
+            continue
         got = G.dec(G.unhex(ro))
         if cap:
             bad.append(('capture-not-rejected', kind, a, x, rr, got, ref))
@@ -144,7 +149,7 @@ def run(tier, seed):
                 if lhs != rhs:
                     bad.append(('substitution-lemma-fails', kind, a, x, rr, got, ref))
     for why, kind, a, x, rr, got, ref in bad[:4]:
-        R.violation(f'rust-subst:{why}:{kind}', f'lib.rs {"apply_esubst" if kind == "SE" else "apply_ssubst"}({G.show(a)}, {x}, {G.show(rr)}) = {G.show(got)}: {why}',
+        R.violation(f'rust-subst:{why}:{kind}', f'lib.rs {"apply_esubst" if kind == "SE" else "apply_ssubst"}({G.show(a)}, {x}, {G.show(rr)}) = {"<panics>" if why.startswith("refuses") else G.show(got)}: {why}',
                     {'function': kind, 'pattern': G.show(a), 'var': x, 'plug': G.show(rr), 'got': G.show(got), 'textbook': G.show(ref),
                      'request': f'{kind} {G.phex(a)} {x} {G.phex(rr)}'})
     # composition law on the Rust side: I(I(p,d),d') == I(p, d' o d) whenever first step and composed are defined
